@@ -25,6 +25,12 @@ CHECKS = {
    design="5/C03", technique="TLA+ history spec (SetKexp) + TLC invariant CheckK + trace validation of k_exp histories"),
  "C04": dict(text="The aggregation schema (every path of Balance = sum of per-carrier paths; breakdowns; per-m2 = absolute / area) is data of the TLA+ trace specification and is checked by TLC on every path of every recorded evaluation, over histories with four areas." + BOTH,
    design="5/C04", technique="TLA+ aggregation schema + trace validation of every Balance path over area histories"),
+ "C08": dict(text="Session histories Evaluate(full) ; Strip ; Evaluate(stripped): TLC checks on the specification that Factors!Strip keeps every key an evaluation looks up (MC_C02!CheckStrip) and, on traces of the real library, that outcome and every field are unchanged and nothing panics." + BOTH,
+   design="5/C08", technique="TLA+ Factors!Strip + TLC invariant CheckStrip + trace validation of full/stripped histories"),
+ "C09": dict(text="Session transforms Permute / Subdivide: checked exactly on the specification for all permutations and m in {2,3} (MC_C09!CheckLayout); on the real library the transformed input is bound to the specification's transform and annual fields / per-step vectors are compared by TLC." + BOTH,
+   design="5/C09", technique="TLA+ Session transforms + TLC invariant CheckLayout + trace validation of layout histories"),
+ "C11": dict(text="Session transforms Scale(c) / SetArea: homogeneity checked exactly on the specification (MC_C09!CheckLayout, integer scalings) and, on traces of the real library logged in units of c, as equality of every energy path, invariance of ratios, f_match and the DHW fraction." + BOTH,
+   design="5/C11", technique="TLA+ Session transforms + TLC invariant (ScaleInt) + trace validation of scaled histories"),
  "C12": dict(text="Abstract specification P_C12 (priority of on-site over cogenerated electricity, formula (32), effect of load matching) checked by TLC on the specification (MC_C02!CheckPrio) and on two-evaluation histories (load matching off/on) of the real library." + BOTH,
    design="5/C12", technique="TLA+ abstract spec P_C12 + TLC invariant CheckPrio + trace validation of off/on histories"),
  "C13": dict(text="RER is a proper fraction and perimeters are nested: TLC invariant MC_C02!CheckRer on the specification (perimeter formulas as implemented, two named known-finding weakenings) and the same predicates evaluated by TLC on every recorded evaluation with regulatory factors at k_exp = 0." + BOTH,
